@@ -117,6 +117,9 @@ func (t *fnTrans) atEntry() {
 					if rhs == "true" || rhs == "false" || strings.ContainsAny(rhs, "=<>!&|") {
 						srt, zero = "Bool", "false"
 					}
+					if strings.HasSuffix(name, ":bool") {
+						name, srt, zero = strings.TrimSuffix(name, ":bool"), "Bool", "false"
+					}
 					hv := t.h.reg("ghost:u:"+name, srt)
 					t.assume(eq(t.h.get(t.cur, hv), zero))
 				}
@@ -392,7 +395,7 @@ func (t *fnTrans) enterLoop(b *ssa.BasicBlock, li *loopInfo) {
 			if li.blocks[in.Block()] {
 				for _, sl := range t.contract.atSet[site] {
 					if i := strings.Index(sl.text, "="); i > 0 {
-						vars["ghost:u:"+strings.TrimSpace(sl.text[:i])] = true
+						vars["ghost:u:"+strings.TrimSuffix(strings.TrimSpace(sl.text[:i]), ":bool")] = true
 					}
 				}
 			}
